@@ -26,7 +26,8 @@ Proof.
 Qed.
 
 (* ------------------------------------------------------------------ one term *)
-Definition encl (c : option (dy * dy)) (r : R) : Prop := match c with Some (lo, hi) => dR lo <= r <= dR hi | None => False end.
+(* an unbounded coefficient (None) constrains nothing: a term with such a coefficient is only accepted when its argument is exactly 0 *)
+Definition encl (c : option (dy * dy)) (r : R) : Prop := match c with Some (lo, hi) => dR lo <= r <= dR hi | None => True end.
 Definition enclx (x : dy * dy) (r : R) : Prop := dR (fst x) <= r <= dR (snd x).
 
 Lemma Rmin_id p : Rmin p p = p. Proof. unfold Rmin. destruct (Rle_dec p p); reflexivity. Qed.
@@ -37,7 +38,7 @@ Proof.
   intros Hc Hx. unfold dterm. destruct (dis0 (fst x) && dis0 (snd x)) eqn:Zx.
   { apply andb_true_iff in Zx. destruct Zx as [Z1 Z2]. intro H. injection H as <-. cbn [fst snd]. rewrite dR_zero.
     unfold enclx in Hx. rewrite (dis0_R _ Z1), (dis0_R _ Z2) in Hx. assert (xr = 0) by lra. subst. lra. }
-  destruct c as [[lo hi]|]; [|contradiction]. cbn [encl] in Hc.
+  destruct c as [[lo hi]|]; [|discriminate]. cbn [encl] in Hc.
   destruct (dis0 lo && dis0 hi) eqn:Zc.
   { apply andb_true_iff in Zc. destruct Zc as [Z1 Z2]. intro H. injection H as <-. cbn [fst snd]. rewrite dR_zero.
     rewrite (dis0_R _ Z1), (dis0_R _ Z2) in Hc. assert (cr = 0) by lra. subst. lra. }
